@@ -312,25 +312,10 @@ def build_harness(features=(), release=True):
 
 
 # ------------------------------------------------------------------ running cases
-def run_cases(cases, tag, features=(), ic=False, release=True, shards=8, runner_args=()):
-    """Runs the cases through the harness and the runner.  Returns (impl_lines,
-    model_lines, model_in_lines)."""
-    os.makedirs(WORK, exist_ok=True)
-    exe = build_harness(features, release)
-    shard_n = max(1, min(shards, (len(cases) + 199) // 200))
-    chunks = [cases[i::shard_n] for i in range(shard_n)]
-    procs = []
-    for si, chunk in enumerate(chunks):
-        base = os.path.join(WORK, "%s.%d" % (tag, si))
-        with open(base + ".cases", "w", encoding="utf-8") as f:
-            for c in chunk:
-                f.write(json.dumps(c, ensure_ascii=False) + "\n")
-        p = subprocess.Popen([exe, base + ".impl", base + ".min"], stdin=open(base + ".cases", "rb"),
-                             stdout=subprocess.PIPE, stderr=subprocess.STDOUT)
-        procs.append((p, base, chunk))
-    # watchdog: the harness flushes one line per case; a shard that is alive but has not finished a
-    # case for STALL seconds is hung on the case after the last line it wrote -- the crate neither
-    # returned nor panicked on that input, which no property allows (the model is total)
+def watch_harness(procs):
+    """procs: [(Popen, base path, chunk)].  Waits for all; a shard that is alive but has not finished a
+    case for STALL seconds is hung on the case after the last line it wrote -- the crate neither returned
+    nor panicked on that input, which no property allows (the model is total).  Raises HangError."""
     stall = float(os.environ.get("VERIF_STALL_S", "300"))
     last = {base: (0, time.time()) for _, base, _ in procs}
     pending = list(procs)
@@ -357,6 +342,25 @@ def run_cases(cases, tag, features=(), ic=False, release=True, shards=8, runner_
         out, _ = p.communicate(timeout=60)
         if p.returncode != 0:
             raise BuildError("harness run failed", out.decode("utf-8", "replace")[-4000:])
+
+
+def run_cases(cases, tag, features=(), ic=False, release=True, shards=8, runner_args=()):
+    """Runs the cases through the harness and the runner.  Returns (impl_lines,
+    model_lines, model_in_lines)."""
+    os.makedirs(WORK, exist_ok=True)
+    exe = build_harness(features, release)
+    shard_n = max(1, min(shards, (len(cases) + 199) // 200))
+    chunks = [cases[i::shard_n] for i in range(shard_n)]
+    procs = []
+    for si, chunk in enumerate(chunks):
+        base = os.path.join(WORK, "%s.%d" % (tag, si))
+        with open(base + ".cases", "w", encoding="utf-8") as f:
+            for c in chunk:
+                f.write(json.dumps(c, ensure_ascii=False) + "\n")
+        p = subprocess.Popen([exe, base + ".impl", base + ".min"], stdin=open(base + ".cases", "rb"),
+                             stdout=subprocess.PIPE, stderr=subprocess.STDOUT)
+        procs.append((p, base, chunk))
+    watch_harness(procs)
     rprocs = []
     for _, base, _ in procs:
         cmd = [RUNNER] + (["--ic"] if ic else []) + list(runner_args)
@@ -389,10 +393,9 @@ def run_harness_only(cases, tag, features=(), release=True):
     with open(base + ".cases", "w", encoding="utf-8") as f:
         for c in cases:
             f.write(json.dumps(c, ensure_ascii=False) + "\n")
-    p = subprocess.run([exe, base + ".impl", base + ".min"], stdin=open(base + ".cases", "rb"),
-                       stdout=subprocess.PIPE, stderr=subprocess.STDOUT, timeout=3600)
-    if p.returncode != 0:
-        raise BuildError("harness run failed", p.stdout.decode("utf-8", "replace")[-4000:])
+    p = subprocess.Popen([exe, base + ".impl", base + ".min"], stdin=open(base + ".cases", "rb"),
+                         stdout=subprocess.PIPE, stderr=subprocess.STDOUT)
+    watch_harness([(p, base, list(cases))])
     impl = open(base + ".impl", encoding="utf-8").read().splitlines()
     os.remove(base + ".min")
     return {c["id"]: a for c, a in zip(cases, impl)}
